@@ -21,46 +21,63 @@ RELATED = {'F1-F2-F3-F6': ['C03', 'C04', 'C08', 'C13', 'C17', 'C07', 'C20', 'C12
 ALL = [f'C{i:02d}' for i in range(1, 21)]
 
 
+def one(patch, name, all_checks):
+    root = tempfile.mkdtemp(prefix='ecagent-ctl-', dir='/tmp')
+    try:
+        for d in ('ECAgent', 'tests', 'DummyScripts'):
+            shutil.copytree(os.path.join('/repo', d), os.path.join(root, d), ignore=shutil.ignore_patterns('__pycache__'))
+        r = subprocess.run(['patch', '-p1', '--no-backup-if-mismatch', '-i', patch], cwd=root, capture_output=True, text=True)
+        if r.returncode:
+            print(f'{name}: PATCH FAILED')
+            return {'control': name, 'error': 'patch does not apply: ' + r.stdout[-300:]}
+        t = subprocess.run(['/venv/bin/python', '-B', '-m', 'pytest', '-q', '-p', 'no:cacheprovider', 'tests'], cwd=root, capture_output=True,
+                           text=True, timeout=600, env=dict(os.environ, PYTHONPATH=root))
+        key = next((k for k in EXPECT_GONE if name.startswith(k)), None)
+        checks = ALL if (all_checks or key is None) else RELATED[key]
+        res = {'control': name, 'repo_tests': t.stdout.strip().splitlines()[-1] if t.stdout.strip() else '', 'checks': {}}
+        for p in checks:
+            c = subprocess.run([os.path.join(HERE, 'check'), p, '--tier', 'quick'], capture_output=True, text=True, timeout=3000,
+                               env=dict(os.environ, VERIF_REPO=root, VERIF_EVIDENCE_DIR=os.path.join(root, '.evidence')))
+            kf = [ln for ln in c.stdout.splitlines() if ln.startswith('KNOWN-FINDING')]
+            res['checks'][p] = {'exit': c.returncode, 'known_finding_lines': kf,
+                                'first': next((ln.strip() for ln in c.stdout.splitlines() if 'first violation' in ln or ln.startswith('INCONCLUSIVE')), '')}
+        bad = [p for p, c in res['checks'].items() if c['exit'] != 0]
+        still = []
+        if key:
+            prop, gone = EXPECT_GONE[key]
+            still = [ln for ln in res['checks'].get(prop, {}).get('known_finding_lines', []) if any(g in ln for g in gone)]
+        res['ok'] = not bad and not still
+        print(f"{name}: {'OK' if res['ok'] else 'ALARM'}  repo tests: {res['repo_tests']}  non-zero: {bad}  findings still reported: {len(still)}")
+        for p in bad:
+            print('   ', p, res['checks'][p]['first'][:300])
+        return res
+    finally:
+        shutil.rmtree(root, ignore_errors=True)
+
+
 def main():
-    args = [a for a in sys.argv[1:] if not a.startswith('--')]
+    args = [a for a in sys.argv[1:] if not a.startswith('-')]
     all_checks = '--all-checks' in sys.argv
-    results = []
+    jobs = 1
+    for a in sys.argv[1:]:
+        if a.startswith('-j'):
+            jobs = int(a[2:] or 4)
+    import concurrent.futures
+    todo = []
     for patch in sorted(glob.glob(os.path.join(HERE, 'controls', '*.diff'))):
         name = os.path.basename(patch)[:-5]
         if args and not any(a in name for a in args):
             continue
-        root = tempfile.mkdtemp(prefix='ecagent-ctl-', dir='/tmp')
+        todo.append((patch, name))
+    with concurrent.futures.ThreadPoolExecutor(max_workers=jobs) as ex:
+        results = list(ex.map(lambda pn: one(pn[0], pn[1], all_checks), todo))
+    if args:       # a partial run is merged into the stored results instead of replacing them
         try:
-            for d in ('ECAgent', 'tests', 'DummyScripts'):
-                shutil.copytree(os.path.join('/repo', d), os.path.join(root, d), ignore=shutil.ignore_patterns('__pycache__'))
-            r = subprocess.run(['patch', '-p1', '--no-backup-if-mismatch', '-i', patch], cwd=root, capture_output=True, text=True)
-            if r.returncode:
-                results.append({'control': name, 'error': 'patch does not apply: ' + r.stdout[-300:]})
-                print(f'{name}: PATCH FAILED')
-                continue
-            t = subprocess.run(['/venv/bin/python', '-B', '-m', 'pytest', '-q', '-p', 'no:cacheprovider', 'tests'], cwd=root, capture_output=True,
-                               text=True, timeout=600, env=dict(os.environ, PYTHONPATH=root))
-            key = next((k for k in EXPECT_GONE if name.startswith(k)), None)
-            checks = ALL if (all_checks or key is None) else RELATED[key]
-            res = {'control': name, 'repo_tests': t.stdout.strip().splitlines()[-1] if t.stdout.strip() else '', 'checks': {}}
-            for p in checks:
-                c = subprocess.run([os.path.join(HERE, 'check'), p, '--tier', 'quick'], capture_output=True, text=True, timeout=3000,
-                                   env=dict(os.environ, VERIF_REPO=root, VERIF_EVIDENCE_DIR=os.path.join(root, '.evidence')))
-                kf = [ln for ln in c.stdout.splitlines() if ln.startswith('KNOWN-FINDING')]
-                res['checks'][p] = {'exit': c.returncode, 'known_finding_lines': kf,
-                                    'first': next((ln.strip() for ln in c.stdout.splitlines() if 'first violation' in ln or ln.startswith('INCONCLUSIVE')), '')}
-            bad = [p for p, c in res['checks'].items() if c['exit'] != 0]
-            still = []
-            if key:
-                prop, gone = EXPECT_GONE[key]
-                still = [ln for ln in res['checks'].get(prop, {}).get('known_finding_lines', []) if any(g in ln for g in gone)]
-            res['ok'] = not bad and not still
-            results.append(res)
-            print(f"{name}: {'OK' if res['ok'] else 'ALARM'}  repo tests: {res['repo_tests']}  non-zero: {bad}  findings still reported: {len(still)}")
-            for p in bad:
-                print('   ', p, res['checks'][p]['first'][:300])
-        finally:
-            shutil.rmtree(root, ignore_errors=True)
+            old = json.load(open(os.path.join(HERE, 'evidence', 'positive_controls.json')))
+        except Exception:  # noqa
+            old = []
+        done = {r['control'] for r in results}
+        results = sorted([r for r in old if r['control'] not in done] + results, key=lambda r: r['control'])
     with open(os.path.join(HERE, 'evidence', 'positive_controls.json'), 'w') as f:
         json.dump(results, f, indent=1)
     return 0 if all(r.get('ok') for r in results) else 1
